@@ -64,7 +64,8 @@ Record sim (m : mem) (s : spec) : Prop := {
   sim_bag : forall pk id, lookup pk (m_bag m) = Some id -> (id < length (m_heap m))%nat;
   sim_own : forall pk id h, lookup pk (m_bag m) = Some id -> nth_error (m_hnd m) h = Some id -> borrowed s h;
   sim_uniq : forall h1 h2 id, h1 <> h2 -> nth_error (m_hnd m) h1 = Some id ->
-                              nth_error (m_hnd m) h2 = Some id -> borrowed s h1
+                              nth_error (m_hnd m) h2 = Some id -> borrowed s h1;
+  sim_str : m_str m = s_str s
 }.
 
 Lemma sim_empty : sim mem_empty spec_empty.
@@ -146,6 +147,7 @@ Proof.
     + subst id. apply (sim_ids _ _ H) in E1. lia.
     + subst id. apply (sim_ids _ _ H) in E2. lia.
     + lia.
+  - apply (sim_str _ _ H).
 Qed.
 
 (* the store takes a private copy of c under a key that is absent, or (overwrite) present with the
@@ -183,6 +185,7 @@ Proof.
     + inversion E1; subst id. apply (sim_ids _ _ H) in E2. lia.
     + apply BR. eapply sim_own; eauto.
   - intros h1 h2 id N E1 E2. apply BR. eapply sim_uniq; eauto.
+  - unfold s_put. destruct (lookup pk (s_map s)); simpl; apply (sim_str _ _ H).
 Qed.
 
 Lemma sim_put : forall cfg m s k pk c m' ob, sim m s -> mc_proj cfg k = Some pk ->
@@ -201,8 +204,20 @@ Proof.
 Qed.
 
 Lemma hget_upd_other : forall m id id' c, id <> id' ->
-  hget {| m_heap := upd (m_heap m) id c; m_bag := m_bag m; m_hnd := m_hnd m |} id' = hget m id'.
+  hget {| m_heap := upd (m_heap m) id c; m_bag := m_bag m; m_hnd := m_hnd m; m_str := m_str m |} id' = hget m id'.
 Proof. intros. unfold hget. simpl. apply upd_nth_other. auto. Qed.
+
+Lemma sim_set_str : forall m s l, sim m s -> sim (set_str m l) (s_set_str s l).
+Proof.
+  intros m s l H. constructor; simpl.
+  - apply (sim_hnd _ _ H).
+  - apply (sim_ids _ _ H).
+  - apply (sim_map _ _ H).
+  - apply (sim_bag _ _ H).
+  - apply (sim_own _ _ H).
+  - apply (sim_uniq _ _ H).
+  - reflexivity.
+Qed.
 
 Lemma step_sim : forall cfg m s o, sim m s -> op_ok (mc_proj cfg) s o = true ->
   snd (mem_step cfg m o) = snd (spec_step (mc_proj cfg) (mc_storage_api cfg) s o) /\
@@ -246,6 +261,7 @@ Proof.
       exists c'. simpl. destruct (Nat.eq_dec h h1).
       * subst h1. rewrite SH in B. discriminate.
       * rewrite upd_nth_error_other; auto.
+    + apply (sim_str _ _ H).
   - (* put *)
     rewrite HH. destruct (s_handle s h) as [c|] eqn:SH; try discriminate.
     destruct (mc_proj cfg k) as [pk|] eqn:P; try discriminate.
@@ -302,10 +318,27 @@ Proof.
       * subst id'. apply borrowed_add. eapply sim_own; eauto.
       * subst h1. exists (hget m id). unfold s_add. simpl. rewrite L. apply nth_error_snoc_new.
       * lia.
+    + apply (sim_str _ _ H).
   - (* has *)
     destruct (mc_storage_api cfg); [|simpl; auto].
     unfold mem_find. destruct (mc_proj cfg k) as [pk|] eqn:P; try discriminate.
     rewrite (sim_map _ _ H pk). destruct (lookup pk (m_bag m)) as [id|] eqn:B; simpl; auto.
+  - (* open a stream *)
+    split; auto. rewrite (sim_str _ _ H). apply sim_set_str. auto.
+  - (* write to a stream: the buffer copies *)
+    rewrite (sim_str _ _ H), HH.
+    destruct (nth_error (s_str s) sid) as [[c u]|]; simpl; auto.
+    destruct (s_handle s h) as [b|]; simpl; auto. split; auto. apply sim_set_str. auto.
+  - (* commit a stream *)
+    rewrite (sim_str _ _ H).
+    destruct (nth_error (s_str s) sid) as [[c u]|] eqn:ST; try discriminate.
+    destruct (mc_proj cfg k) as [pk|] eqn:P; try discriminate.
+    apply andb_true_iff in OK. destruct OK as [U PC]. destruct u; try discriminate.
+    rewrite !andb_false_r.
+    destruct (mem_put cfg (set_str m (upd (s_str s) sid (c, true))) k c) as [m' ob] eqn:MP.
+    destruct (sim_put cfg _ (s_set_str s (upd (s_str s) sid (c, true))) k pk c m' ob
+                (sim_set_str m s _ H) P PC MP) as [E S'].
+    subst. simpl. auto.
 Qed.
 
 Theorem mem_refines_from : forall cfg ops m s, sim m s ->
